@@ -354,11 +354,16 @@ class SymbolTable(OpTrait):
 
     @staticmethod
     def lookup_symbol(
-        op: Operation, name: str | StringAttr | SymbolRefAttr
+        op: Operation,
+        name: str | StringAttr | SymbolRefAttr,
+        *,
+        _nested: bool = False,
     ) -> Operation | None:
         """
         Lookup a symbol by reference, starting from a specific operation's closest
         SymbolTable parent.
+        Nested references are only resolved inside symbol tables, and never resolve to
+        a private symbol of a nested table.
         """
         # import builtin here to avoid circular import
         from xdsl.dialects.builtin import StringAttr, SymbolRefAttr
@@ -374,11 +379,17 @@ class SymbolTable(OpTrait):
             if (
                 sym_interface := o.get_trait(SymbolOpInterface)
             ) is not None and sym_interface.get_sym_attr_name(o) == name.root_reference:
+                if _nested and o.get_attr_or_prop("sym_visibility") == StringAttr(
+                    "private"
+                ):
+                    return None
                 if not name.nested_references:
                     return o
+                if not o.has_trait(SymbolTable, value_if_unregistered=False):
+                    return None
                 nested_root, *nested_references = name.nested_references.data
                 nested_name = SymbolRefAttr(nested_root, nested_references)
-                return SymbolTable.lookup_symbol(o, nested_name)
+                return SymbolTable.lookup_symbol(o, nested_name, _nested=True)
         return None
 
     @staticmethod
